@@ -4,6 +4,7 @@ import math
 DAYS_PER_MONTH = [31, 28, 31, 30, 31, 30, 31, 31, 30, 31, 30, 31]
 DAYS_EPOCH = 25569
 DAYS_1900 = 2
+MILLIS_PER_DAY = 24 * 60 * 60 * 1000
 
 
 def is_leap_year(year):
@@ -35,7 +36,15 @@ def to_oa_date(date):
 
 
 def to_date(oadate):
-    value = oadate - DAYS_1900
+    # split off the time of day first and round it to milliseconds:
+    # truncating hours, minutes and seconds one after the other loses
+    # a second whenever the float fraction is slightly below the exact value
+    days = math.floor(oadate)
+    millis = round((oadate - days) * MILLIS_PER_DAY)
+    if millis >= MILLIS_PER_DAY:
+        days += 1
+        millis -= MILLIS_PER_DAY
+    value = days - DAYS_1900
     year = 1900
     while value >= year_days(year):
         value -= year_days(year)
@@ -44,15 +53,11 @@ def to_date(oadate):
     while value >= month_days(year, month):
         value -= month_days(year, month)
         month += 1
-    day = math.trunc(value) + 1
-    value = value - math.trunc(value)
-    hours = math.trunc(value * 24)
-    value = value * 24 - hours
-    minutes = math.trunc(value * 60)
-    value = value * 60 - minutes
-    seconds = math.trunc(value * 60)
-    value = value * 60 - seconds
-    microseconds = math.trunc(value * 1000 * 1000)
+    day = value + 1
+    seconds, millis = divmod(millis, 1000)
+    minutes, seconds = divmod(seconds, 60)
+    hours, minutes = divmod(minutes, 60)
+    microseconds = millis * 1000
     result = datetime.datetime.fromtimestamp(0)
     return result.replace(
         year=year,
